@@ -119,6 +119,13 @@ def run_single(ctx, case):
         return
     project = sig.new_project(ctx)
     root = project.path
+    if len(expected) and int(expected[:2], 16) % 3 == 0:
+        # the handle is made from a relative path and the process then works from another directory (as inside
+        # `with job:`); everything below must still happen in the project
+        os.chdir(os.path.dirname(root))
+        project = signac.Project(os.path.basename(root))
+        os.chdir(os.path.join(root, "workspace"))
+        ctx.count("relative_project_handle_then_chdir")
     arg = copy.deepcopy(sp)
     if case.get("byid_first"):
         arg = _tuple_spelling(arg)  # arrays as tuples: their mutable elements are still the caller's objects
@@ -147,8 +154,8 @@ def run_single(ctx, case):
         project.update_cache()
     job.init()
     ctx.monitor("init_layout")
-    jd = os.path.join(project.workspace, expected)
-    names = sorted(os.listdir(project.workspace))
+    jd = os.path.join(os.path.join(root, "workspace"), expected)
+    names = sorted(os.listdir(os.path.join(root, "workspace")))
     if names != [expected]:
         ctx.violation("init-wrong-directory", "workspace does not hold exactly the directory named by the id",
                       {"sp": sp, "listing": names, "expected": expected})
@@ -165,7 +172,7 @@ def run_single(ctx, case):
         ctx.violation("init-extra-files", "init() left extra files", {"listing": sorted(os.listdir(jd))})
     # 4. idempotent, never rewrites
     before = model.snapshot(root, with_mtime=True)
-    with fsmon.Session([root], readonly=[project.workspace]) as s:
+    with fsmon.Session([root], readonly=[os.path.join(root, "workspace")]) as s:
         job.init()
         project.open_job(copy.deepcopy(sp)).init()
         sig.fresh(root).open_job(copy.deepcopy(sp)).init()
@@ -357,7 +364,11 @@ def run_set(ctx, case):
 
 
 def run_case(ctx, case):
-    if case["kind"] == "single":
-        run_single(ctx, case)
-    else:
-        run_set(ctx, case)
+    cwd0 = os.getcwd()
+    try:
+        if case["kind"] == "single":
+            run_single(ctx, case)
+        else:
+            run_set(ctx, case)
+    finally:
+        os.chdir(cwd0)
